@@ -195,6 +195,43 @@ pub fn decode(bytes: &[u8], dict: &Dict, opt: &Options) -> Value {
     let fat_len = fat_full.len();
     let tail_nonfree = fat_full.iter().skip(nsec).filter(|&&c| c != FREE).count();
     let fat: Vec<i64> = fat_full.iter().take(nsec).copied().collect();
+    // cells past the end of the file (trailing FREE trimmed), and - for small files - the cells of
+    // every sector the DIFAT names, so that a reader which drops some DIFAT entries (padding) can
+    // be followed as well
+    let mut fat_tail: Vec<i64> = fat_full.iter().skip(nsec).copied().collect();
+    while fat_tail.last() == Some(&FREE) {
+        fat_tail.pop();
+    }
+    m.insert("fat_tail".into(), json!(fat_tail));
+    let mut named: Vec<i64> = Vec::new();
+    let mut in_range = 0usize;
+    let mut hole = false;
+    let mut seen_free = false;
+    for &e in hdr_difat.iter().chain(difat_ext.iter()) {
+        if e == FREE {
+            seen_free = true;
+        } else if seen_free {
+            hole = true;
+        }
+        if e >= 0 && (e as usize) < nsec {
+            in_range += 1;
+            if !named.contains(&e) {
+                named.push(e);
+            }
+        }
+    }
+    // only reported when the entry list is irregular (a repeated sector, or entries after a FREE
+    // entry): otherwise `fat` above already is what any reader assembles
+    if nsec <= (1 << 15) && (hole || named.len() != in_range) {
+        let cells: Vec<Value> = named
+            .iter()
+            .map(|&e| {
+                let s = sector(bytes, slen, e as usize, &mut scratch).to_vec();
+                json!([e, (0..per).map(|i| cell(u32le(&s, 4 * i))).collect::<Vec<i64>>()])
+            })
+            .collect();
+        m.insert("fat_cells".into(), Value::Array(cells));
+    }
     m.insert("fat_secs".into(), json!(fat_secs));
     m.insert("fat_len".into(), json!(fat_len));
     m.insert("fat_tail_nonfree".into(), json!(tail_nonfree));
@@ -285,7 +322,25 @@ fn decode_slot(e: &[u8], dict: &Dict) -> Value {
     let pad_zero = units[nchars.min(31)..].iter().all(|&u| u == 0);
     let blank = e[0..68].iter().all(|&b| b == 0) && e[80..128].iter().all(|&b| b == 0);
     let size = u64le(e, 120);
+    // raw facts a reader may test (no judgement here): the unit right after the name as the name
+    // length field delimits it, UTF-16 well-formedness of the name, presence of / \ : !, link
+    // values in the reserved range 0xFFFFFFFB..=0xFFFFFFFE, the low 32 bits of the length
+    let lenok = nlen <= 64 && nlen % 2 == 0;
+    let nch = if lenok && nlen > 0 { nlen / 2 - 1 } else { 0 };
+    let t0 = lenok && units[nch] == 0;
+    let utf16 = !lenok || char::decode_utf16(units[..nch].iter().copied()).all(|r| r.is_ok());
+    let nbad = lenok && units[..nch].iter().any(|&u| u == 47 || u == 92 || u == 58 || u == 33);
+    let resv = |v: u32| (0xFFFF_FFFB..=0xFFFF_FFFE).contains(&v);
+    let size3 = size & 0xFFFF_FFFF;
     json!({
+        "t0": t0,
+        "utf16": utf16,
+        "nbad": nbad,
+        "linv": resv(u32le(e, 68)),
+        "rinv": resv(u32le(e, 72)),
+        "cinv": resv(u32le(e, 76)),
+        "size3": if size3 < 0x7FFF_FFFF { size3 as i64 } else { BIG },
+        "szmod": (size % 64) as i64,
         "name": name,
         "nunits": nchars,
         "nlen": nlen,
